@@ -161,8 +161,9 @@ package auth
 //@   ensures held(mu)
 //@ extern func (mu *sync.RWMutex) Unlock() ()
 //@   requires held(mu)
-//@   modifies held(mu)
+//@   modifies held(mu), ghostInt(mu, "sections")
 //@   ensures !held(mu)
+//@   ensures ghostInt(mu, "sections") == old(ghostInt(mu, "sections")) + 1
 //@ spec func listOK(l []*User) bool = forall(i, 0, len(l), l[i] != nil)
 //@ spec func mgrOK(m *manager) bool = m != nil && !held(&m.lock) && m.m != nil && mapValuesNonNil(m.m) && listOK(m.l) && listOK(m.saves) && listOK(m.removes) && distinctBacking(m.l, m.saves) && distinctBacking(m.l, m.removes) && distinctBacking(m.saves, m.removes) && len(m.l) <= 1<<30 && len(m.saves) <= 1<<30 && len(m.removes) <= 1<<30
 
@@ -170,7 +171,7 @@ package auth
 // (so that the next Flush persists the deletion), whether or not an update of it was pending; an unknown name changes nothing
 //@ func (m *manager) Del(userName string) (err error)
 //@   requires mgrOK(m)
-//@   modifies held(&m.lock), m.l, m.l[:cap(m.l)], m.saves, m.saves[:cap(m.saves)], m.removes, m.removes[:cap(m.removes)], mapAll(m.m), all()
+//@   modifies held(&m.lock), ghostInt(&m.lock, "sections"), m.l, m.l[:cap(m.l)], m.saves, m.saves[:cap(m.saves)], m.removes, m.removes[:cap(m.removes)], mapAll(m.m), all()
 //@   local rangeindex int
 //@   loop 0: modifies
 //@   loop 0: invariant -1 <= rangeindex && rangeindex <= len(m.l) && sameHdr(m.l, old(m.l))
@@ -187,9 +188,13 @@ package auth
 //@   ensures ghostInt(p, "flushes") == old(ghostInt(p, "flushes")) + 1
 //@ func (m *manager) Flush() (err error)
 //@   requires m != nil && !held(&m.lock) && m.provider != nil && len(m.saves) <= 1<<30 && len(m.removes) <= 1<<30
-//@   modifies held(&m.lock), m.saves, m.removes, ghostInt(m.provider, "flushes")
+//@   modifies held(&m.lock), ghostInt(&m.lock, "sections"), m.saves, m.removes, ghostInt(m.provider, "flushes")
 //@   ensures !held(&m.lock)
 //@   ensures old(len(m.saves)) + old(len(m.removes)) == 0 ==> err == nil && ghostInt(m.provider, "flushes") == old(ghostInt(m.provider, "flushes"))
 //@   ensures old(len(m.saves)) + old(len(m.removes)) != 0 ==> ghostInt(m.provider, "flushes") == old(ghostInt(m.provider, "flushes")) + 1
 //@   ensures err == nil ==> len(m.saves) == 0 && len(m.removes) == 0
 //@   ensures err != nil ==> len(m.saves) == old(len(m.saves)) && len(m.removes) == old(len(m.removes))
+// one critical section: the pending lists are read, handed to the provider and cleared without the table lock being
+// released in between (an edit that arrives while the provider writes would otherwise be cleared without having been written)
+//@   assert[call:auth.UserProvider.Flush] held(&m.lock)
+//@   ensures ghostInt(&m.lock, "sections") == old(ghostInt(&m.lock, "sections")) + 1
